@@ -19,7 +19,7 @@ import (
 	"github.com/imroc/req/v3/verifharness/hk"
 )
 
-func main() { hk.Main("C11", runC11, nil) }
+func main() { hk.Main("C11", runC11, syncers) }
 
 type authority struct {
 	Kind string  `json:"kind"` // name | v4 | v6
@@ -185,7 +185,19 @@ func runC11(r *hk.Run) {
 		var pol req.RedirectPolicy
 		var coqPol, name string
 		var want bool
-		switch k := rng.Intn(6); k {
+		switch k := rng.Intn(7); k {
+		case 6:
+			// DefaultRedirectPolicy: documented as "allows up to 10 redirects"
+			for len(via) < rng.Range(8, 12) {
+				via = append(via, mutateAuthority(rng, o))
+			}
+			viaReqs, viaStr = nil, nil
+			for _, v := range via {
+				viaReqs = append(viaReqs, mkReq(v.render()))
+				viaStr = append(viaStr, v.render())
+			}
+			pol, coqPol, name = req.DefaultRedirectPolicy(), "PDefault", "default"
+			want = len(via) < 10
 		case 0:
 			lim := rng.Range(-1, 5)
 			pol, coqPol, name = req.MaxRedirectPolicy(lim), "(PMax "+hk.CoqZ(int64(lim))+")", "max"
